@@ -74,6 +74,10 @@ def definition_contract(self, r, gamma, out, snap):
     if ok:
         return
     if k == 'MS':
+        # the literature has two forms (potential inside or outside the root); either is the MS relation
+        ok1, _ = agree(out, R.c_ref(spec, r0, g0, u0, sig if sig is not None else -np.inf, ms='original'))
+        if ok1:
+            return
         ok2, _ = agree(out, R.c_ref(spec, r0, g0, u0, sig if sig is not None else -np.inf, ms='shipped'))
         if ok2:
             ctx.violation('closure:MS-shipped-form', 'MartynovSarkisov returns exp(sqrt(gamma-u+0.5)-1)-1-gamma, not the Martynov-Sarkisov relation')
